@@ -45,7 +45,68 @@ func (x *Exec) buildScript(o *Obligation, extraFacts []*Term, getVals []*Term) s
 	return x.renderScript(as, neg, getVals)
 }
 
+// relevantFacts keeps the assumptions in the cone of influence of the query: a fact is kept when it
+// shares a (non-ubiquitous) symbol with the goal or with a fact already kept. Dropping assumptions is sound.
+func relevantFacts(as []*Term, neg *Term, getVals []*Term) []*Term {
+	if len(as) < 40 || os.Getenv("GVC_NORELEVANCE") != "" {
+		return as
+	}
+	ubiq := map[string]bool{"null": true, "slen": true, "sbytes": true, "allocId": true, "litId": true, "charStr": true}
+	syms := make([]map[string]bool, len(as))
+	for i, a := range as {
+		m := map[string]bool{}
+		a.symbols(m, map[*Term]bool{})
+		for u := range ubiq {
+			delete(m, u)
+		}
+		syms[i] = m
+	}
+	rel := map[string]bool{}
+	neg.symbols(rel, map[*Term]bool{})
+	for _, v := range getVals {
+		v.symbols(rel, map[*Term]bool{})
+	}
+	for u := range ubiq {
+		delete(rel, u)
+	}
+	idx := map[string][]int{}
+	for i, m := range syms {
+		for sname := range m {
+			idx[sname] = append(idx[sname], i)
+		}
+	}
+	keep := make([]bool, len(as))
+	var work []string
+	for sname := range rel {
+		work = append(work, sname)
+	}
+	for len(work) > 0 {
+		sname := work[len(work)-1]
+		work = work[:len(work)-1]
+		for _, i := range idx[sname] {
+			if keep[i] {
+				continue
+			}
+			keep[i] = true
+			for s2 := range syms[i] {
+				if !rel[s2] {
+					rel[s2] = true
+					work = append(work, s2)
+				}
+			}
+		}
+	}
+	var out []*Term
+	for i, a := range as {
+		if keep[i] || len(syms[i]) == 0 {
+			out = append(out, a)
+		}
+	}
+	return out
+}
+
 func (x *Exec) renderScript(as []*Term, neg *Term, getVals []*Term) string {
+	as = relevantFacts(as, neg, getVals)
 	// enable axiom groups and make sure their symbols are declared
 	var prelude strings.Builder
 	on := map[string]bool{}
@@ -75,7 +136,7 @@ func (x *Exec) renderScript(as []*Term, neg *Term, getVals []*Term) string {
 	for _, v := range getVals {
 		v.symbols(used, seen)
 	}
-	order := []string{"str", "substr", "mkstr", "concat", "strcmp", "prefix", "indexbyte", "alloc"}
+	order := []string{"str", "substr", "mkstr", "concat", "strjoin", "strcmp", "prefix", "indexbyte", "alloc"}
 	var axText strings.Builder
 	for _, g := range order {
 		if !on[g] {
